@@ -208,8 +208,34 @@ z3::expr numeral(double v)
     return e;
 }
 
-Real mk(const z3::expr& e, uint8_t sign, int sq = 0)
+const std::vector<int>& syms_of(const z3::expr& e);
+
+// sign bits of a numeral term
+uint8_t sign_of_numeral(const z3::expr& v)
 {
+    std::string str = Z3_get_numeral_string(ctx(), v);
+    bool neg = !str.empty() && str[0] == '-';
+    bool zero = true;
+    for (char ch : str)
+        if (ch >= '1' && ch <= '9')
+            zero = false;
+    if (zero)
+        return NONNEG | NONPOS;
+    return (neg ? NONPOS : NONNEG) | NONZERO;
+}
+
+Real mk(const z3::expr& e0, uint8_t sign, int sq = 0)
+{
+    z3::expr e = e0;
+    // constant folding: a term without symbols is kept as an exact rational numeral
+    if (!e.is_numeral() && syms_of(e).empty())
+    {
+        z3::expr v = e.simplify();
+        if (v.is_numeral())
+            e = v;
+    }
+    if (e.is_numeral())
+        sign = sign_of_numeral(e);
     P->terms.push_back(e);
     P->signs.push_back(sign);
     P->sq_of.push_back(sq);
@@ -941,6 +967,7 @@ z3::expr Real::term() const { return id ? P->terms[id] : numeral(c); }
 Real::operator bool() const { return *this != Real(0); }
 
 Real from_expr(const z3::expr& e, uint8_t sign) { return mk(e, sign); }
+Real rational(long p, long q) { return mk(ctx().real_val((int64_t) p, (int64_t) q), 0); }
 Real exact_mul(const Real& a, const Real& b) { return mk((a.term() * b.term()).simplify(), sign_mul(a.sign(), b.sign())); }
 
 Real Real::operator-() const
@@ -1182,6 +1209,18 @@ Real sqrt(const Real& a)
         x.id = P->sq_of[a.id];
         x.c = 0;
         return abs(x);
+    }
+    if (P->terms[a.id].is_numeral())
+    {
+        // exact root of a rational perfect square
+        z3::expr num = P->terms[a.id].numerator(), den = P->terms[a.id].denominator();
+        int64_t pn = 0, pd = 0;
+        if (Z3_get_numeral_int64(ctx(), num, &pn) && Z3_get_numeral_int64(ctx(), den, &pd) && pn >= 0 && pd > 0 && pn < (1LL << 52) && pd < (1LL << 52))
+        {
+            int64_t rn = (int64_t) std::llround(std::sqrt((double) pn)), rd = (int64_t) std::llround(std::sqrt((double) pd));
+            if (rn * rn == pn && rd * rd == pd)
+                return mk(ctx().real_val(rn, rd), 0);
+        }
     }
     unsigned aid = Z3_get_ast_id(ctx(), P->terms[a.id]);
     auto it = P->sqrt_memo.find(aid);
@@ -2154,6 +2193,7 @@ int run_main(int argc, char** argv, const std::vector<Case>& all_cases)
             int fd;
             bool busy;
             int ci;
+            std::string prefix;
             std::string buf;
             std::vector<std::string> lines;
         };
@@ -2175,7 +2215,7 @@ int run_main(int argc, char** argv, const std::vector<Case>& all_cases)
                 worker_loop(sv[1], cases);
             }
             close(sv[1]);
-            ws.push_back({pid, sv[0], false, -1, "", {}});
+            ws.push_back({pid, sv[0], false, -1, "", "", {}});
         }
         std::deque<std::pair<int, std::string>> q;
         for (size_t ci = 0; ci < cases.size(); ci++)
@@ -2209,6 +2249,7 @@ int run_main(int argc, char** argv, const std::vector<Case>& all_cases)
                 }
                 w.busy = true;
                 w.ci = item.first;
+                w.prefix = item.second;
                 if (cstart[w.ci] == 0)
                     cstart[w.ci] = now();
                 outstanding[w.ci]++;
@@ -2285,6 +2326,8 @@ int run_main(int argc, char** argv, const std::vector<Case>& all_cases)
         }
         for (W& w : ws)
         {
+            if (timed_out && w.busy)
+                fprintf(stderr, "deadline: still running case %s prefix '%s'\n", cases[w.ci].name.c_str(), w.prefix.c_str());
             if (timed_out)
                 kill(w.pid, SIGKILL);
             else if (write(w.fd, "QUIT\n", 5) < 0)
